@@ -95,3 +95,113 @@ Theorem history_independent_real_solver :
     /\ exact_run g ops (hrun tbl_repo Solver.sstate_empty ask (mkSt g None) ops).
 Proof. intros ops g H H0. exact (history_independent_solver tbl_repo ops g repo_table_safe H H0). Qed.
 Print Assumptions history_independent_real_solver.
+
+(* ------------------------------------------------------------------------------------------------
+   CYCLIC graphs (and graphs with node conditions).  The statement above without "acyclic" is FALSE for the
+   solver as written, already on a condition-free 4-node loop, with two queries and no mutation in between,
+   in both directions (a stale `true` and a stale `false`); the same two query sequences give the same
+   answers on cfg.so (corpus/C08/cyclic_memo_*.json, listed finding history-dependent:cyclic:memo-as-modelled).
+   What DOES hold on every graph follows. *)
+From PV Require Import Typegraph.CyclicMemo Typegraph.HistoryCyclic.
+
+Theorem history_independent_cyclic_refuted : exists ops g,
+  ops_wf ops /\
+  (fix nocond_asks (g : graph) (ops : list hop) : Prop :=
+     match ops with
+     | [] => True
+     | Api ms :: t => nocond_asks (apply_all g ms) t
+     | Ask _ :: t => Graph.no_conditions (to_solver_graph (view g)) = true /\ nocond_asks g t
+     end) g ops /\
+  hrun tbl_repo Solver.sstate_empty ask (mkSt g None) ops <> href Solver.sstate_empty ask g ops.
+Proof. exact (history_independent_cyclic_refuted_lemma tbl_repo). Qed.
+Print Assumptions history_independent_cyclic_refuted.
+
+(* both directions, spelled out: loop n0 -> n1 -> n2 -> n1, n1 -> n3; e at n0; c at the head n1 from {e, b};
+   b at the body n2 from {e, c}.  "b at n1?" then "c at n1?": live true/true, fresh true/false;
+   "c at n1?" then "b at n1?": live false/false, fresh false/true. *)
+Theorem history_dependence_on_a_loop_both_directions :
+  (skipn 13 (hrun tbl_repo Solver.sstate_empty ask (mkSt graph0 None) cyc_ops_true) = [Some true; Some true] /\
+   skipn 13 (href Solver.sstate_empty ask graph0 cyc_ops_true) = [Some true; Some false]) /\
+  (skipn 13 (hrun tbl_repo Solver.sstate_empty ask (mkSt graph0 None) cyc_ops_false) = [Some false; Some false] /\
+   skipn 13 (href Solver.sstate_empty ask graph0 cyc_ops_false) = [Some false; Some true]).
+Proof. split; [exact (cyc_dep_true tbl_repo) | exact (cyc_dep_false tbl_repo)]. Qed.
+Print Assumptions history_dependence_on_a_loop_both_directions.
+
+Example cyclic_witness_class :
+  ops_wf cyc_ops_true /\ ops_wf cyc_ops_false /\
+  Graph.no_conditions (to_solver_graph (view cyc_graph)) = true /\
+  Graph.wf_graph (to_solver_graph (view cyc_graph)) = true /\
+  Graph.acyclicb (to_solver_graph (view cyc_graph)) = false.
+Proof. exact cyc_facts. Qed.
+
+(* "Repeated queries never flip" for the REAL memoised solver: every history, every graph - cyclic and
+   conditional included - no hypothesis on the history, the graph or the memo. *)
+Theorem repeat_stable_real_solver : forall (pre : list hop) (q : query) (g : graph),
+  exists b, skipn (length pre) (hrun tbl_repo Solver.sstate_empty ask (mkSt g None) (pre ++ [Ask q; Ask q]))
+            = [Some b; Some b].
+Proof. intros pre q g. exact (repeat_stable_solver tbl_repo pre q (mkSt g None)). Qed.
+Print Assumptions repeat_stable_real_solver.
+
+(* The invariant of one solver lifetime, on every graph: solved_states_ only grows and a finished entry never
+   changes ... *)
+Theorem memo_monotone_real_solver : forall g fuel st attrs n st' r,
+  Solver.solve fuel g st attrs n = Some (st', r) ->
+  forall s b, Solver.memo_get s (Solver.s_memo st) = Some b -> Solver.memo_get s (Solver.s_memo st') = Some b.
+Proof. intros g fuel st attrs n st' r H. exact (solve_mono g fuel st attrs n st' r H). Qed.
+Print Assumptions memo_monotone_real_solver.
+
+(* ... hence an answered query keeps its answer for the rest of the lifetime, whatever is asked in between,
+   and answering it again does not change the solver *)
+Theorem answer_sticky_real_solver : forall g fuel f' st attrs n st1 r st2,
+  Solver.solve fuel g st attrs n = Some (st1, r) ->
+  (forall s b, Solver.memo_get s (Solver.s_memo st1) = Some b -> Solver.memo_get s (Solver.s_memo st2) = Some b) ->
+  Solver.solve (S f') g st2 attrs n = Some (st2, r).
+Proof. exact solve_sticky. Qed.
+Print Assumptions answer_sticky_real_solver.
+
+(* ... and every `true` in the memo, hence every `true` answer of a long-lived solver, is circularly explained
+   (CyclicMemo.GExpl): a stale `true` is never worse than what SOME fresh search could justify by going
+   round a loop. *)
+Theorem live_true_answers_circularly_explained : forall g fuel st attrs n st' r,
+  Solver.solve fuel g st attrs n = Some (st', r) -> st_okG g st ->
+  st_okG g st' /\ (r = true -> GExpl g (n, Graph.sof_list attrs)).
+Proof. exact solve_gexpl. Qed.
+Print Assumptions live_true_answers_circularly_explained.
+
+Example memo_invariant_initially : forall g, st_okG g Solver.sstate_empty.
+Proof. exact st_okG_empty. Qed.
+
+(* ------------------------------------------------------------------------------------------------
+   History independence on CYCLIC condition-free graphs for the queries whose search cannot run into a cycle.
+   clean_query g attrs n: no infinite FindSolution descent starts at the query's start states (accessibility
+   for the successor relation of the search).  In ANY sequence of queries sharing one solver - whatever else,
+   clean or not, was asked before or in between - a clean query gets the declarative answer, i.e. the answer of
+   a fresh solver.  On an acyclic graph every query is clean, so this contains the acyclic statement. *)
+From PV Require Import Typegraph.CleanExact.
+
+Theorem history_independent_clean_queries : forall g fuel fuel' qs st' answers,
+  Graph.no_conditions g = true ->
+  Spec.run_queries fuel g Solver.sstate_empty qs = Some (st', answers) ->
+  Forall2 (fun q a => clean_query g (fst q) (snd q) ->
+                      forall a', Solver.solve_fresh fuel' g (fst q) (snd q) = Some a' -> a = a') qs answers.
+Proof. exact clean_query_fresh_answer. Qed.
+Print Assumptions history_independent_clean_queries.
+
+Theorem clean_queries_get_the_declarative_answer : forall g, Graph.no_conditions g = true ->
+  forall fuel qs st st' answers,
+  Spec.run_queries fuel g st qs = Some (st', answers) -> st_okW g st ->
+  st_okW g st' /\
+  Forall2 (fun q a => clean_query g (fst q) (snd q) -> (a = true <-> Spec.Expl g (snd q) (Graph.sof_list (fst q))))
+          qs answers.
+Proof. exact run_queries_exact_wf. Qed.
+Print Assumptions clean_queries_get_the_declarative_answer.
+
+Theorem every_query_clean_on_acyclic_graphs : forall g rank, Graph.ranked g rank -> forall s, WFS g s.
+Proof. exact all_clean_acyclic. Qed.
+Print Assumptions every_query_clean_on_acyclic_graphs.
+
+(* non-vacuity: a graph with a CFG cycle on which queries are clean *)
+Example clean_on_a_cyclic_graph :
+  Graph.wf_graph loop2 = true /\ Graph.no_conditions loop2 = true /\ Graph.acyclicb loop2 = false /\
+  clean_query loop2 [0] 1 /\ clean_query loop2 [0; 1] 0.
+Proof. exact loop2_facts. Qed.
